@@ -35,9 +35,10 @@ def separate_into_sections(pattern=DEFAULT_SECTION_PATTERN, independent=True, re
     """
     if not report[TOOL_NAME]['success']:
         pass
-    if report[TOOL_NAME]['sections']:
-        # TODO: System constraint violated: separating into sections multiple times
-        pass
+    if report[TOOL_NAME]['sections'] and report[TOOL_NAME].get('section_group') is not None:
+        # Separating again starts over from the whole file: splitting the
+        # section that happens to be active would lose the rest for good
+        stop_sections(report=report)
     report[TOOL_NAME]['independent'] = independent
     report[TOOL_NAME]['section'] = 0
     report[TOOL_NAME]['section_group'] = FeedbackSourceSection(0)
